@@ -10,9 +10,9 @@ universe (bytes, bytearray, user containers, protocol-typed values) can be used.
 Streams (kind):
   container   `x in C` / `x not in C` for every container kind, incl. those whose __contains__ is not element-wise
               equality (str, bytes, bytearray, Enum classes, user classes), against variables with multi-character /
-              bytes / int Literal members and plain types                         (round-4 seed; finding (b))
+              bytes / int Literal members and plain types                         (round-4 seed; defect (b), repaired)
   leak        a helper whose returned condition is about *its* parameter, called from a function that has a variable
-              of the same name (global, closure, parameter, local)                (finding (d))
+              of the same name (global, closure, parameter, local)                (defect (d), fixed in 180079d)
   asname      `case <pattern with sub-patterns> as p`: the value bound to p        (finding (a), C01's)
   protocol    truthiness of protocol / ABC typed values (Hashable, Iterable, ...)  (finding (c))
 
@@ -229,21 +229,9 @@ def protocol_progs():
 def attribute(prog, slot, args, bound):
     k = prog["kind"]
     if k == "container":
-        # C02-in-nonelementwise-container: the object is `in` C by C's own __contains__ without being (type-strictly)
-        # equal to an element obtained by iterating C, and it is not covered by a Literal member of the declared type
-        # (Literal members are tested with C's own __contains__ and must survive)
-        cont, var, o = prog["cont"], prog["var"], bound
-        els = elements(cont)
-        try:
-            inside = o in cont
-        except Exception:
-            return None
-        if els is not None and inside and not any(strict_eq(o, e) for e in els) and not any(strict_eq(o, l) for l in var[1]):
-            return "nonelementwise_container"
-        return None
+        return None  # C02-in-nonelementwise-container is repaired upstream: a loss is a regression, never attributed
     if k == "leak":
-        # C02-callee-constraint-leak: the recorded variable is not the object the helper tested
-        return "callee_leak" if prog["shape"] != "same" else None
+        return None  # repaired upstream (180079d): a leak is a regression, never attributed
     if k == "asname":
         return "subpattern_on_subject" if prog["has_sub"] else None
     if k == "protocol":
